@@ -4,8 +4,8 @@ from vv.registry import PROPS, COMMON_ASSUME, rc
 harness("h_c17", ["harness/h_c17.cc"], libs=("xtp",))
 
 PROPS["C17"] = dict(
-    parts=[rc("h_c17", quick=dict(cases=6000, procs=8, budget_s=600),
-              thorough=dict(cases=120000, procs=16, budget_s=1500))],
+    parts=[rc("h_c17", quick=dict(cases=6000, procs=8, args=["--enum", "1"], budget_s=600),
+              thorough=dict(cases=120000, procs=16, args=["--enum", "2"], budget_s=1500))],
     rule=("statemachine: generated sequences (2..24 steps) of reopen(READ|MODIFY|CREATE) / write(path,name,value) / read-of-a-never-written-name over one "
           "checkpoint file; values: Index/int/unsigned/double(+-0, denormal, inf, nan payloads)/bool/string(empty, UTF-8, control characters, 10 kB), "
           "vector<Index|int|double|string>, MatrixXd 0x0..300x300 incl. Nx0/0xN/1xN/Nx1, VectorXd, Vector3d, vector<Vector3d>, CptTable rows of "
@@ -15,6 +15,11 @@ PROPS["C17"] = dict(
           "(skipped after an other-type overwrite). Each case runs in a fork()ed child (HDF5 global state; ASan aborts are attributed to the step). "
           "non-trivial = the executed sequence has an overwrite with another shape, or writes an empty shape, or reopens the file after a write. "
           "single: 1..3 fresh values of any kind written, file closed, read back (minimal replays for per-kind round trips)."
+          " Element types: MatrixXf (single-precision specials), MatrixXi, Matrix<long> (values beyond 32 bits / 2^53), vector<float>, "
+          "vector<unsigned>, and a table whose row struct {int,double,unsigned,long,float} has alignment padding; 25 % of the overwrites of a "
+          "dataset keep the stored extent and change the element type (class overwrite-same-extent-other-element-type). corners (enumerated, every "
+          "tier): every ordered pair of the four matrix element types over one 3x4 extent, every ordered pair of nine column kinds over one 6x1 "
+          "extent, vector<Vector3d> lists of 9999/10000/10001/10050 entries (fresh, overwritten by and overwriting a short list), padded-row tables of 1/7/300 rows."
           " Interleaved handles: 30 % of the write attempts on a READ handle are made with a READ handle that was created while a "
           "MODIFY handle on the same file was open in the process."),
     assumptions=COMMON_ASSUME + [
